@@ -450,6 +450,14 @@ func c17JSONMutations(rep *Report, w *World) {
 				What: fmt.Sprintf("genesis passes ValidateGenesis but InitGenesis fails: %v  [mutation %s]", ipan, m.Name)})
 			continue
 		}
+		var parsed orbtypes.GenesisState
+		if err := w.App.appCodec.UnmarshalJSON([]byte(doc), &parsed); err == nil {
+			if problem := docContentProblem(&parsed, w.App.OrbiterKeeper.ExportGenesis(b)); problem != "" {
+				rep.Violate(Violation{Kind: "initialised-state-is-not-the-document", Group: "json", Sig: sig, Replay: replay,
+					What: fmt.Sprintf("genesis passes validation and initialises, but the state exported right afterwards is not its content: %s  [mutation %s]", problem, m.Name)})
+				continue
+			}
+		}
 		if _, _, problem := w.genesisRoundTrip(b); problem != "" {
 			rep.Violate(Violation{Kind: "state-from-validated-genesis-does-not-round-trip", Group: "json", Sig: sig, Replay: replay,
 				What: fmt.Sprintf("state initialised from a validated genesis does not round-trip: %s  [mutation %s]", problem, m.Name)})
@@ -597,6 +605,15 @@ func c17JSONDocuments(rep *Report, worlds []*World, full bool) {
 			rep.Violate(Violation{Kind: "validated-genesis-cannot-be-initialised", Group: "json", Sig: sig, Replay: replay,
 				What: fmt.Sprintf("genesis file passes validation but InitGenesis fails: %v  [%s]", ipan, trunc(d.label, 200))})
 			return
+		}
+		// containment: the file as the codec reads it must be what the module exports right after importing it
+		var parsed orbtypes.GenesisState
+		if err := w.App.appCodec.UnmarshalJSON([]byte(d.text), &parsed); err == nil {
+			if problem := docContentProblem(&parsed, w.App.OrbiterKeeper.ExportGenesis(b)); problem != "" {
+				rep.Violate(Violation{Kind: "initialised-state-is-not-the-document", Group: "json", Sig: sig, Replay: replay,
+					What: fmt.Sprintf("genesis file passes validation and initialises, but the state exported right afterwards is not its content: %s  [%s]", problem, trunc(d.label, 200))})
+				return
+			}
 		}
 		if _, _, problem := w.genesisRoundTrip(b); problem != "" {
 			rep.Violate(Violation{Kind: "state-from-validated-genesis-does-not-round-trip", Group: "json", Sig: sig, Replay: replay,
